@@ -965,8 +965,29 @@ pub fn cli(ctx: &Ctx, rng: &mut Rng, o: &mut Out) {
   let n = if ctx.thorough { 1500 } else { 110 };
   let mut cases = 0usize;
   let mut transient_hangs: Vec<String> = vec![];
-  for _ in 0..n {
-    let p = gen_project(rng, false);
+  for pi in 0..n {
+    let mut p = gen_project(rng, false);
+    if pi % 4 == 0 {
+      // two rules that match the SAME node of one file, and a suppression that names only the one
+      // that is tried first (rules without a fix are tried in the order of their ids): the other
+      // rule's finding — of error severity — is not suppressed and decides the exit status
+      let (a, b) = (format!("a-style{pi}"), format!("no-num{pi}"));
+      p.rules.push(URule { id: a.clone(), lang: 10, sev: "hint".into(), files: None, ignores: None, kind: "number".into() });
+      p.rules.push(URule { id: b.clone(), lang: 10, sev: "error".into(), files: None, ignores: None, kind: "number".into() });
+      let (first, other) = if pi % 8 == 0 { (a, b) } else { (b, a) };
+      p.files.push(PFile {
+        path: format!("src/two-rules-{pi}.js"),
+        content_lang: Some(10),
+        lines: vec![
+          (format!("// ast-grep-ignore: {first}"), String::new(), Some(Some(first))),
+          ("let a = 1".to_string(), "number".to_string(), None),
+          ("let b = 2".to_string(), "number".to_string(), None),
+          (format!("// ast-grep-ignore: {other}"), String::new(), Some(Some(other))),
+          ("let c = 3".to_string(), "number".to_string(), None),
+        ],
+        injected: vec![],
+      });
+    }
     let ids: Vec<String> = p.rules.iter().map(|r| r.id.clone()).collect();
     let (occs, filter) = gen_flags(rng, &ids);
     let dir = materialize(&p);
